@@ -292,6 +292,16 @@ func (fr *Frame) loopEnv(li *loopInfo, phiVal func(*ssa.Phi) Val) map[string]Val
 				}
 			case *ssa.DebugRef:
 				if d.IsAddr {
+					// an address-taken local: the contract names the variable; field selections go through the pointer
+					if obj := d.Object(); obj != nil {
+						if al, ok := d.X.(*ssa.Alloc); ok {
+							if v, ok := fr.vals[al]; ok {
+								if _, isStruct := al.Type().Underlying().(*types.Pointer).Elem().Underlying().(*types.Struct); isStruct {
+									vars[obj.Name()] = v
+								}
+							}
+						}
+					}
 					continue
 				}
 				if obj := d.Object(); obj != nil {
